@@ -424,7 +424,7 @@ def check_pair_git(acc, setting, source, target, s, t, label, maxk):
                                   dict(desc, missing=sorted(want - (got[0] | got[1] | got[2])), rows=a))
                 if len(got[0] | got[1] | got[2]) < len(ref[0] | ref[1] | ref[2]):
                     nontrivial = True
-            acc.outcomes.add(hash(repr(got)))
+            acc.outcomes.add(hash(repr([sorted(x) for x in got])))
     if nontrivial:
         acc.nt((setting, repr(sorted(label.items()))))
 
